@@ -6,7 +6,7 @@ open Plevel_cmd
 let run_case (line : string) : string =
   let parts = List.filter (fun p -> p <> "") (List.map String.trim (String.split_on_char ';' line)) in
   let doms, rest = match parts with d :: r -> d, r | [] -> failwith "empty" in
-  let iv = ref 10000 and tfire = ref None and mem = ref None and buildmem = ref false in
+  let iv = ref (int_of_z engine_check_interval) and tfire = ref None and mem = ref None and buildmem = ref false in
   let entry = ref ["solve"] and posts = ref [] in
   List.iter (fun p -> match words p with
     | ["iv"; n] -> iv := int_of_string n
